@@ -28,6 +28,10 @@ pub uninterp spec fn decimal_text(v: int) -> Seq<char>;
 pub uninterp spec fn pq_text(quote_all: bool, yaml_12: bool, in_flow: usize, s: Seq<char>) -> Seq<char>;
 spec fn t0_of(ser: &YamlSerializer) -> Seq<char> { ser.out.text() }
 spec fn pq_of(ser: &YamlSerializer, s: Seq<char>) -> Seq<char> { pq_text(ser.quote_all, ser.yaml_12, ser.in_flow, s) }
+/// the text `scalar_key_to_string` gives for a string key (KeyScalarSink::serialize_str, under contract in unit `quoting`)
+pub uninterp spec fn key_text(s: Seq<char>, yaml_12: bool) -> Seq<char>;
+#[verifier::external_body]
+fn key_text_of(key: &str, yaml_12: bool) -> (r: Result<String, SerError>) ensures r is Ok ==> r->Ok_0@ == key_text(key@, yaml_12), { unimplemented!() }
 /// `n` spaces
 pub open spec fn spaces(n: int) -> Seq<char> { Seq::new(n as nat, |i: int| ' ') }
 /// the word written for None / unit
@@ -71,3 +75,12 @@ fn ser_value_in_flow<'b>(value: &SerVal, ser: &mut YamlSerializer<'b>) -> (r: Re
 /// std: `Option::replace` (not specified by the installed vstd; assumed as documented)
 pub assume_specification<T>[ Option::<T>::replace ](opt: &mut Option<T>, value: T) -> (r: Option<T>)
     ensures r == *old(opt), *final(opt) == Some(value);
+pub open spec fn break_free(s: Seq<char>) -> bool { forall|i: int| 0 <= i < s.len() ==> s[i] != '\n' && s[i] != '\r' }
+/// `self.comment_text.take().unwrap_or_default()`
+#[verifier::external_body]
+fn take_comment(c: &mut Option<String>) -> (r: String) ensures *final(c) == None::<String>, { unimplemented!() }
+#[verifier::external_body]
+fn string_is_empty(s: &String) -> (r: bool) ensures r == (s@.len() == 0), { unimplemented!() }
+/// `comment.replace(['\n', '\r'], " ")`: proved break-free in unit `quoting` (TupleSer::serialize_field#stage_comment)
+#[verifier::external_body]
+fn sanitize_comment(s: &String) -> (r: String) ensures break_free(r@), { unimplemented!() }
